@@ -16,7 +16,8 @@ EXPLANATION = ('The sampler classes are constructed by their real constructors (
                'rectangles/sectors, discrete sets and function lists return only listed members, RandomFunction has the declared arity and output '
                'dimension, is fixed once drawn and stays within center +/- amplitude (sin uninterpreted with |sin| <= 1); array samplers return '
                'MathArrays of the declared shape whose entries are real, parallel to the (symmetrised) raw draw with the drawn norm in range, '
-               'with triangular zeros, (anti)symmetry, diagonal form, zero trace and scalar*identity structure.')
+               'with triangular zeros, (anti)symmetry, diagonal form, zero trace and scalar*identity structure.'
+               ' Complex families (2-vectors, 2x2, hermitian / antihermitian whatever `complex` says, identity multiples of a complex scalar) with the complex Frobenius norm stubbed; the SquareMatrices constructor against the documented table of non-existent option combinations (288 combinations).')
 ASSUMPTIONS = ['RNG stubs: documented contracts only (listed in stubs)', 'the raw draw has non-zero norm (measure-zero event excluded)',
                'interval ends range over [-6,6] (integers in [-4,4])']
 BOUNDS = {'quick': 'RandomFunction input_dim 1-3 x output_dim 1-2 x num_terms 1-2; vectors 2-3, matrices 2x2, 2x3, 3x3, tensor 2x2x2; SquareMatrices dims 2-3 '
